@@ -25,6 +25,8 @@ import (
 	"github.com/prometheus/client_golang/prometheus"
 	"github.com/prometheus/common/model"
 	"github.com/prometheus/common/promslog"
+	"go.opentelemetry.io/otel"
+	"go.opentelemetry.io/otel/propagation"
 
 	"github.com/prometheus/alertmanager/alert"
 	"github.com/prometheus/alertmanager/config"
@@ -40,6 +42,7 @@ import (
 type hook struct {
 	mtx    sync.Mutex
 	armed  map[string]chan struct{} // version tag -> closed when that version has been stored
+	inject chan struct{}            // closed when the next message header is being injected (after the store)
 	dawdle time.Duration
 }
 
@@ -60,6 +63,25 @@ func (h *hook) PostStore(a *alert.Alert, _ bool) {
 func (h *hook) PostDelete(*alert.Alert)     {}
 func (h *hook) PostGC(model.Fingerprints) {}
 
+// dawdlingPropagator: mem.Alerts.Put injects the tracing header of every published message through the global
+// propagator it captured at construction — a second seam between "stored" and "published".
+type dawdlingPropagator struct {
+	propagation.TextMapPropagator
+	h *hook
+}
+
+func (p dawdlingPropagator) Inject(ctx context.Context, c propagation.TextMapCarrier) {
+	p.h.mtx.Lock()
+	ch, d := p.h.inject, p.h.dawdle
+	p.h.inject = nil
+	p.h.mtx.Unlock()
+	if ch != nil {
+		close(ch)
+		time.Sleep(d)
+	}
+	p.TextMapPropagator.Inject(ctx, c)
+}
+
 func labelsOf(id int) model.LabelSet {
 	return model.LabelSet{"alertname": "A", "id": model.LabelValue(strconv.Itoa(id))}
 }
@@ -70,6 +92,10 @@ func runCase(t *testing.T, tr *hx.Trace, id int, script []string, r *rand.Rand) 
 	ctx, cancel := context.WithCancel(context.Background())
 	defer cancel()
 	h := &hook{armed: map[string]chan struct{}{}, dawdle: 3 * time.Millisecond}
+	prev := otel.GetTextMapPropagator()
+	// wrap a concrete propagator: the global one is a delegate that would forward back to this wrapper
+	otel.SetTextMapPropagator(dawdlingPropagator{propagation.TraceContext{}, h})
+	defer otel.SetTextMapPropagator(prev)
 	alerts, err := mem.NewAlerts(ctx, time.Hour, 0, h, logger, rec, prometheus.NewRegistry(), nil)
 	if err != nil {
 		t.Fatal(err)
@@ -99,14 +125,27 @@ func runCase(t *testing.T, tr *hx.Trace, id int, script []string, r *rand.Rand) 
 		for range n {
 			aid := 1 + r.IntN(2)
 			ka, kb := hx.Pick(r, []string{"f", "r"}), hx.Pick(r, []string{"f", "r"})
-			ops = append(ops, fmt.Sprintf("race %d %s%d %s%d", aid, ka, v+1, kb, v+2))
+			switch r.IntN(3) {
+			case 0:
+				ops = append(ops, fmt.Sprintf("race %d %s%d %s%d", aid, ka, v+1, kb, v+2))
+			case 1:
+				// same race, the first submission held up at the header injection instead of the store callback
+				ops = append(ops, fmt.Sprintf("racei %d %s%d %s%d", aid, ka, v+1, kb, v+2))
+			default:
+				// no concurrency: the later submission carries an OLDER UpdatedAt (clients stamp before they submit)
+				ops = append(ops, fmt.Sprintf("stale %d %s%d %s%d", aid, ka, v+1, kb, v+2))
+			}
 			v += 2
 		}
 	}
 	tr.Linef("%s", header)
 	t0 := time.Now()
+	stale := map[string]bool{}
 	mk := func(aid int, tag string) *alert.Alert {
 		a := &alert.Alert{Alert: model.Alert{Labels: labelsOf(aid), Annotations: model.LabelSet{"v": model.LabelValue(tag)}, StartsAt: t0.Add(-time.Minute)}, UpdatedAt: time.Now()}
+		if stale[tag] {
+			a.UpdatedAt = a.UpdatedAt.Add(-10 * time.Second)
+		}
 		if tag[0] == 'r' {
 			a.EndsAt = time.Now().Add(-time.Second)
 		} else {
@@ -116,26 +155,36 @@ func runCase(t *testing.T, tr *hx.Trace, id int, script []string, r *rand.Rand) 
 	}
 	for _, op := range ops {
 		f := strings.Fields(op)
-		if f[0] != "race" {
+		aid, _ := strconv.Atoi(f[1])
+		switch f[0] {
+		case "stale":
+			alerts.Put(context.Background(), mk(aid, f[2]))
+			stale[f[3]] = true
+			alerts.Put(context.Background(), mk(aid, f[3]))
+		case "race", "racei":
+			stored := make(chan struct{})
+			h.mtx.Lock()
+			if f[0] == "race" {
+				h.armed[f[2]] = stored
+			} else {
+				h.inject = stored
+			}
+			h.mtx.Unlock()
+			var wg sync.WaitGroup
+			wg.Add(2)
+			go func() { defer wg.Done(); alerts.Put(context.Background(), mk(aid, f[2])) }()
+			go func() {
+				defer wg.Done()
+				select {
+				case <-stored:
+				case <-time.After(2 * time.Second):
+				}
+				alerts.Put(context.Background(), mk(aid, f[3]))
+			}()
+			wg.Wait()
+		default:
 			t.Fatalf("bad op %q", op)
 		}
-		aid, _ := strconv.Atoi(f[1])
-		stored := make(chan struct{})
-		h.mtx.Lock()
-		h.armed[f[2]] = stored
-		h.mtx.Unlock()
-		var wg sync.WaitGroup
-		wg.Add(2)
-		go func() { defer wg.Done(); alerts.Put(context.Background(), mk(aid, f[2])) }()
-		go func() {
-			defer wg.Done()
-			select {
-			case <-stored:
-			case <-time.After(2 * time.Second):
-			}
-			alerts.Put(context.Background(), mk(aid, f[3]))
-		}()
-		wg.Wait()
 		// quiescence: give the dispatcher up to 5 s (real time, generous under machine load) to hold the version
 		// the provider holds; a reordered publish never converges, a slow machine does
 		st, err := alerts.Get(labelsOf(aid).Fingerprint())
